@@ -2,7 +2,6 @@
 From Coq Require Import ZArith Decimal DecimalPos DecimalN DecimalZ.
 From V.model Require Import Base Deb822Lex Deb822Parse Grammar Lossy LossySpec Derive.
 From V.proofs Require Import BaseP LossyRtP.
-Set Default Timeout 60.
 
 (* ================================================================== 1. std functions of the codecs *)
 (* ---- decimal numerals ---- *)
